@@ -800,6 +800,7 @@ Theorem compile_hardcode_r_exact nm c x body b cnt pc sid cmds fs pc' sid' :
                                      (fst (do_op st (tmp_score nm sid) OAssign x))) Next.
 Proof.
   unfold compile_hardcode_r, parse_switch_r. fold (hard_cases body b cnt). intros H.
+  destruct (cnt <? b); [discriminate|].
   destruct (is_macro c) eqn:Hm.
   - destruct (parse_switch_macro_r nm HARDCODE_SWITCH_NAME x (hard_cases body b cnt) pc) as [[cm fm] pm] eqn:E.
     injection H as <- <- <- <-. intros ft env B Hft HB st.
